@@ -129,6 +129,9 @@ class Sys(e2.DevSys):
             acts.append(("ann-bounce",))
             acts += [("svc-bounce", i) for i in sorted(self.announced) if self.announced[i]]
         acts += [("connlost",), ("find", 0), ("find", 1)]
+        if self.started:
+            # a FindService handled and, in the same loop iteration, before its (deferred) answer, a stop
+            acts += [("find+stop", 0), ("find+stop", 1)]
         if self.simple is not None:
             acts = [("helper-stop",)] if self.announced[1] else []
         return acts
@@ -167,6 +170,13 @@ class Sys(e2.DevSys):
             self.finds.append((self.loop.time(), act[1]))
             data = refcodec.sd_message(self.find_session, [("find", self.sid, 0xFFFF, 0xFF, 3, 0xFFFFFFFF, (), ())])
             self.prot.datagram_received(data, REQ, bool(act[1]))
+        elif act[0] == "find+stop":
+            self.find_session += 1
+            self.finds.append((self.loop.time(), act[1]))
+            data = refcodec.sd_message(self.find_session, [("find", self.sid, 0xFFFF, 0xFF, 3, 0xFFFFFFFF, (), ())])
+            self.prot.datagram_received(data, REQ, bool(act[1]))
+            self._set(started=False)
+            ann.stop()
         elif act[0] == "helper-stop":
             self._set(announced=(1, False))
             self.simple.stop_announce(ann)
